@@ -11,7 +11,7 @@ def scenarios(rng: random.Random, n: int, thorough: bool):
     scs = []
     for i in range(n):
         mode = ["zeroed", "barrel_below", "muzzle_above", "on_line", "transonic", "subsonic", "high_arc", "inclined",
-                "muzzle_above_barrel_below"][i % 9]
+                "muzzle_above_barrel_below", "barely_supersonic_launch"][i % 10]
         p = shots.gen_shot(rng, winds=rng.choice([0, 1]), look=0.0)
         p["sight_in"] = rng.choice([1.5, 2.0, 3.2])
         sc = {"extra": True, "unit": "Foot"}
@@ -43,6 +43,15 @@ def scenarios(rng: random.Random, n: int, thorough: bool):
             p["mv_fps"] = rng.choice([900.0, 1500.0, 2600.0])
             p["rel_rad"] = math.radians(rng.choice([20.0, 35.0, 50.0]))
             p["bc"] = 0.15
+        elif mode == "barely_supersonic_launch":
+            # launched a few hundred-thousandths above the local speed of sound (read from the atmosphere of this very shot): the
+            # speed falls through Mach 1 within the FIRST integration step
+            import py_ballisticcalc as m_
+            p["winds"] = []
+            p["look_deg"] = 0.0
+            snd = shots.build_shot(dict(p, winds=[])).atmo.mach >> m_.Unit.FPS
+            p["mv_fps"] = snd * (1 + rng.choice([2e-5, 5e-5, 1e-4]))
+            p["bc"], p["table"] = 0.2, "G1"
         elif mode == "inclined":
             p["look_deg"] = rng.choice([-30.0, -12.0, 7.0, 25.0, 45.0])
             p["rel_rad"] = rng.choice([0.001, 0.003])
@@ -115,7 +124,7 @@ def run(chk: core.Check, replay=None) -> None:
     chk.sample({"scenario": o["sc"], "flag_lines": [l for l in o["lines"] if l["ev"] == "Iter" and set(l["fl"]) & {"U", "D", "M"}][:3]})
     chk.sample({"tlc_behaviour": {k: v for k, v in behs[1].items() if k != "consts"}})
     chk.require_strata(["obj_flag_U", "obj_flag_D", "obj_flag_M", "real_flag_U", "real_flag_D", "real_flag_M", "inclined_sight_line",
-                        "zeros_accessor", "request_ends_at_an_event_with_closing_row", "mode_barrel_below", "mode_muzzle_above", "mode_on_line", "mode_muzzle_above_barrel_below"])
+                        "zeros_accessor", "request_ends_at_an_event_with_closing_row", "mode_barrel_below", "mode_muzzle_above", "mode_on_line", "mode_muzzle_above_barrel_below", "mode_barely_supersonic_launch"])
     chk.exhaustive = False
     chk.rule.append("design: Integrator.tla C15_* over every side/sup sequence of the bounded model for each muzzle/barrel configuration; "
                     "spec->code: TLC behaviours replayed into the real _TrajectoryDataFilter (flags and seen_zero after every call); "
